@@ -14,6 +14,7 @@ def check(tier, seed):
     with C.WorkDir('C12') as wd:
         C.audit_sources()
         C.props_obligations(res, 'C12', wd)
+        C.tie_b_request(res, wd)
         C.tie_b_kernels(res, wd, ('ck', 'frame'))
         a1 = list(res.assumption_lines)
         C.props_obligations(res, 'C12b', wd)
